@@ -51,6 +51,7 @@ def make_corpus(c, nflow, npar, nscen, seed_off=0, par_exec=0, features=None, pr
             continue
         scs = [render.gen_scenario(rng, p, "ok") for _ in range(2)] + slow_scenarios(rng, p)
         scs += render.fault_scenarios(rng, p)
+        scs += render.late_fault_scenarios(rng, p)
         scs += render.hold_scenarios(rng, p)
         scs += render.barrier_scenarios(rng, p)
         scs += [render.gen_scenario(rng, p, "mixed") for _ in range(nscen)]
